@@ -422,8 +422,20 @@ def check_surroundings(ctx):
     check_hash_covers_generated_code(ctx, 'R9-generated-code-is-current')
 
 
+
+def _include(ctx, what, fn, *a, **k):
+    """run a rule of another property as part of this one; an analysis it cannot complete is
+    reported as no verdict of that rule, not of the whole check"""
+    try:
+        fn(ctx, *a, **k)
+    except Undecided as e:
+        ctx.undecided(what, ('bisturi', '<included rule>'), what, str(e), 0)
+
 def check(ctx):
     repo = ctx.repo
+    # Round 8: an integer declared optional is encoded whenever it is present: 0 is a value (C08 pair rule)
+    from .c08 import check_optional
+    _include(ctx, 'C08-optional', check_optional, repo.cls('Optional'))
     ci = repo.cls('Int')
     comp = ci.methods.get('_compile')
     if comp is None:
